@@ -618,6 +618,11 @@ func constEval(e ast.Expr, known map[string]constInfo) (string, bool) {
 		if v, ok := m[src(x)]; ok {
 			return v, true
 		}
+	case *ast.CallExpr:
+		// integer type conversion of a constant: int64(100 * time.Millisecond)
+		if _, isTy := leanTy[src(x.Fun)]; isTy && len(x.Args) == 1 && src(x.Fun) != "bool" {
+			return constEval(x.Args[0], known)
+		}
 	case *ast.BinaryExpr:
 		a, ok1 := constEval(x.X, known)
 		b, ok2 := constEval(x.Y, known)
